@@ -354,6 +354,16 @@ class MultiFit(FitBase):
         )
         _cost_functions.append(self._shared_cost_function)
         _cost_names.append(self._shared_cost_function.name)
+
+        # The shared cost function replaces the cost functions of the chi2 fits.
+        # The cost of the parameter constraints of those fits has to be added separately.
+        self._nexus.add(
+            Function(func=self._get_shared_fits_constraint_cost, name="shared_fits_constraint_cost"),
+            add_children=False,
+        )
+        self._nexus.add_dependency(name="shared_fits_constraint_cost", depends_on="parameter_values")
+        _cost_names.append("shared_fits_constraint_cost")
+
         self._cost_function = MultiCostFunction(singular_cost_functions=_cost_functions, cost_function_names=_cost_names)
         self._nexus.add_function(
             func=self._cost_function,
@@ -362,6 +372,15 @@ class MultiFit(FitBase):
             existing_behavior="replace",
         )
         self._initialize_fitter()
+
+    def _get_shared_fits_constraint_cost(self):
+        """cost of the parameter constraints of the individual chi2 fits (whose cost is replaced by the shared cost)"""
+        _cost = 0.0
+        for _fit in self._fits:
+            if _fit._cost_function.is_chi2:
+                for _parameter_constraint in _fit.parameter_constraints:
+                    _cost += _parameter_constraint.cost(_fit.parameter_values)
+        return _cost
 
     def _initialize_fitter(self):
         self._fitter = NexusFitter(
@@ -664,6 +683,7 @@ class MultiFit(FitBase):
             _gof_sum += self._shared_cost_function.goodness_of_fit(
                 *[self._nexus.get(_node_name).value for _node_name in self._shared_cost_function.arg_names]
             )
+            _gof_sum += self._get_shared_fits_constraint_cost()
         # the cost of constraints added to the multifit itself is part of its cost function value
         for _parameter_constraint in self._fit_param_constraints:
             _gof_sum += _parameter_constraint.cost(self.parameter_values)
